@@ -33,6 +33,8 @@ func runC06(w *World) {
 	s := NewStd1(w, Std1Opts{Dir: dir, Passive: dir == DirIn && w.Draw(2, "passive") == 1, LocalHold: lh, RemoteHold: uint16(rh), IdleHold: 6 * time.Hour,
 		Configure: func(p *PeerH) {
 			p.Plug.EstFn = func(pl *Plug, ss *Session) { writer = ss.Writer }
+			// a plugin may return a nil handler: received UPDATEs still count as traffic
+			p.Plug.NilHandler = w.Chance(1, 4, "nilhandler")
 		}})
 	if s == nil {
 		return
@@ -230,7 +232,7 @@ func runC06(w *World) {
 		nupd := p.Plug.NUpd
 		deliver(MkFrame(MsgUpdate, []byte{0, 0, 0, 0}))
 		w.Quiesce()
-		if p.Plug.NUpd != nupd+1 {
+		if p.Plug.NUpd != nupd+1 && !p.Plug.NilHandler {
 			w.Violate("C06/zero-holdtime/updates-stop", "hold time 0: an UPDATE sent after 24 h of silence did not reach the handler")
 			return
 		}
